@@ -23,13 +23,20 @@ func genC17(rng *rand.Rand, c *Case) {
 	n := 1 + rng.Intn(3)
 	for v := 0; v < n; v++ {
 		// kick: N[0] option (0 none, 1 temporary, 2 permanent), N[1] second ban later (0 none, 1 temp, 2 perm)
-		c.Ops = append(c.Ops, Op{C: v, K: "kick", N: []int{rng.Intn(3), rng.Intn(4) % 3}})
+		kick := Op{C: v, K: "kick", N: []int{rng.Intn(3), rng.Intn(4) % 3, 0, 0}}
+		c.Ops = append(c.Ops, kick)
 		// reconnect attempts at offsets (seconds after the kick); negative = restart the server before the attempt
 		offs := []int{3, 5 + rng.Intn(600), 1799, 1801, 1805 + rng.Intn(4000)}
 		rng.Shuffle(len(offs), func(i, j int) { offs[i], offs[j] = offs[j], offs[i] })
 		offs = offs[:2+rng.Intn(4)]
 		for _, o := range offs {
 			c.Ops = append(c.Ops, Op{C: v, K: "reconnect", N: []int{o, rng.Intn(4) / 3, rng.Intn(3)}})
+		}
+		// a second session from the same address, logged in before the temporary ban and left alone by it, is
+		// banned in its turn (N[2]: 1 temporary, 2 permanent) N[3] seconds after the first ban - while that one
+		// is still running.  Drawn after everything else of this victim.
+		if kick.N[0] == 1 && rng.Intn(2) == 0 {
+			kick.N[2], kick.N[3] = 1+rng.Intn(2), []int{4, 10 + rng.Intn(1700), 1790}[rng.Intn(3)]
 		}
 	}
 }
@@ -125,6 +132,15 @@ func runC17(w *World) {
 				return
 			}
 			vid := vc.MyUserID()
+			var twin *Client
+			if len(kick.N) > 3 && kick.N[2] > 0 && kick.N[0] == 1 {
+				simrt.Sleep(2100 * time.Millisecond)
+				var ta attempt
+				if ta, twin = try(ip, "twin"); !ta.loggedIn {
+					w.Violate("c17-fresh-address-refused", "a second user from the address %s could not log in: %+v", ip, ta)
+					return
+				}
+			}
 			// a second connection from the same address, accepted before the ban is requested (it has not sent
 			// its handshake yet); it completes handshake + login only after the ban
 			var spare *Client
@@ -192,8 +208,46 @@ func runC17(w *World) {
 					}
 				}
 			}
+			// the ban of the second session: replaces the running temporary ban
+			banTwin := func() bool {
+				t := twin
+				twin = nil
+				if t.Closed {
+					return true // went down with a restart, or was closed by the first ban: nothing to ban
+				}
+				kickAt2 := w.Sim.Now()
+				if w.Case.Cfg["reloads"] == 1 {
+					w.ReloadDuring(w.Case.Cfg["reload_delay"] / 3)
+				}
+				rep, ok := admin.DisconnectUser(t.MyUserID(), kick.N[2])
+				if !ok || rep.Err != 0 {
+					w.Violate("c17-disconnect-refused", "administrator's disconnect request (option %d) for the second session from %s refused: %s", kick.N[2], ip, fieldStr(rep, rp.FError))
+					return false
+				}
+				simrt.Sleep(2500 * time.Millisecond)
+				if !t.Closed {
+					w.Violate("c17-victim-not-disconnected", "2.5 s after the disconnect request (option %d) the second session from %s is still open", kick.N[2], ip)
+					return false
+				}
+				if kick.N[2] == 2 {
+					perm = true
+				} else {
+					until = kickAt2 + 30*time.Minute
+				}
+				last = w.Sim.Now()
+				w.Probe("ban_replaces_running_temporary_ban")
+				return true
+			}
 			for _, r := range recon {
 				at := kickAt + time.Duration(r.N[0])*time.Second
+				if twin != nil && kickAt+time.Duration(kick.N[3])*time.Second <= at {
+					if d := kickAt + time.Duration(kick.N[3])*time.Second - w.Sim.Now(); d > 0 {
+						simrt.Sleep(d)
+					}
+					if !banTwin() {
+						return
+					}
+				}
 				if at < last+2100*time.Millisecond {
 					at = last + 2100*time.Millisecond // stay clear of the 2 s per-address connection limiter
 				}
@@ -301,6 +355,14 @@ func runC17(w *World) {
 							w.Probe("second_bans")
 						}
 					}
+				}
+			}
+			if twin != nil {
+				if d := kickAt + time.Duration(kick.N[3])*time.Second - w.Sim.Now(); d > 0 {
+					simrt.Sleep(d)
+				}
+				if !banTwin() {
+					return
 				}
 			}
 			// the ban file a fresh instance loads agrees with the model
